@@ -45,7 +45,7 @@ static std::vector<CheckSpec> &specs() {
 	add("C13", "exploration", {{"async", "C13", 24000, 1500000}});
 	add("C14", "exploration", {{"async", "C14", 16000, 1000000}, {"world", "C14", 4000, 200000}});
 	add("C06", "exploration", {{"async", "C06", 12000, 600000}, {"world", "C06", 6000, 300000}});
-	add("C15", "exploration", {{"ha", "C15", 16000, 1000000}});
+	add("C15", "exploration", {{"ha", "C15", 12000, 800000}});
 	add("C07", "exploration", {{"world", "C07", 12000, 600000}});
 	add("C08", "exploration", {{"world", "C08", 10000, 500000}});
 	add("C04", "exploration", {{"world", "C04", 8000, 400000}});
@@ -496,10 +496,21 @@ int cmd_find(const std::string &engine, const std::string &property, const std::
 	uint64_t base = 1;
 	if (const char *s = getenv("VERIF_SEED")) base = strtoull(s, nullptr, 0);
 	std::vector<Known> none;
+	bool iso = getenv("FIND_ISOLATED") != nullptr;
 	for (uint64_t i = 0; i < nseeds; i++) {
 		Plan p = e->generate(run_seed(base, job, i), property, 0);
-		RunResult r = e->execute(p, false);
-		for (auto &v : r.violations) {
+		std::vector<sim::Violation> viols;
+		if (iso) {
+			Isolated r = run_isolated(p);
+			if (r.crashed && rule == "crash") {
+				Outcome oc; sim::Violation v; v.property = property;
+				handle_violation(job, 0, base, i, v, none, oc, true);
+				for (auto &l : oc.lines) printf("%s\n", l.c_str());
+				return oc.exit_code;
+			}
+			viols = r.violations;
+		} else viols = e->execute(p, false).violations;
+		for (auto &v : viols) {
 			if (v.rule.find(rule) == std::string::npos || v.key.find(key) == std::string::npos) continue;
 			Outcome oc;
 			handle_violation(job, 0, base, i, v, none, oc, false);
@@ -524,6 +535,26 @@ int cmd_check(const std::string &property, const std::string &tier_s) {
 	if (const char *s = getenv("VERIF_SCALE")) scale = atof(s);
 	if (spec->jobs.size() == 1 && spec->jobs[0].engine == "alloc") return cmd_alloc_check(tier ? "thorough" : "quick");
 	double t0 = now_s();
+	// regression: the replays of defects that were repaired in /repo must stay silent (a fixed entry suppresses nothing)
+	int regress_total = 0, regress_back = 0;
+	std::vector<std::string> regress_lines;
+	{
+		std::string txt; js::Val kj;
+		if (js::read_file(verif_dir() + "/known_findings.json", txt) && js::parse(txt, kj)) if (const js::Val *f = kj.get("findings")) for (auto &e : f->a) {
+			if (e.gets("status") != "fixed" || e.gets("replay").empty()) continue;
+			std::string path = verif_dir() + "/" + e.gets("replay");
+			std::string rt; js::Val rj; Plan rp;
+			if (!js::read_file(path, rt) || !js::parse(rt, rj) || !rj.get("plan") || !Plan::from_json(*rj.get("plan"), rp)) continue;
+			Engine *re = engine_by_name(rp.engine);
+			if (!re) continue;
+			regress_total++;
+			bool back = false;
+			const js::Val *ex = rj.get("expected");
+			if (ex && ex->geti("crash")) back = run_isolated(rp).crashed;
+			else { RunResult rr = re->execute(rp, false); for (auto &v : rr.violations) if (v.property == rj.gets("property") && v.rule == rj.gets("rule")) back = true; }
+			if (back) { regress_back++; regress_lines.push_back("VIOLATION property=" + rj.gets("property") + " replay=" + path); regress_lines.push_back("  a defect that was repaired (" + e.gets("commit") + ") is back: " + e.gets("what")); }
+		}
+	}
 	int wall = tier ? spec->thorough_wall_s : spec->quick_wall_s;
 	if (const char *s = getenv("VERIF_WALL_S")) wall = atoi(s);
 	std::vector<Known> known = load_known();
@@ -586,6 +617,8 @@ int cmd_check(const std::string &property, const std::string &tier_s) {
 		total.crashed_at.insert(total.crashed_at.end(), wo.crashed_at.begin(), wo.crashed_at.end());
 	}
 	double wall_s = now_s() - t0;
+	for (auto &l : regress_lines) printf("%s\n", l.c_str());
+	if (regress_back) { oc.exit_code = std::max(oc.exit_code, 1); oc.violations += regress_back; }
 	for (auto &l : oc.lines) printf("%s\n", l.c_str());
 	// evidence
 	js::Val ev = js::Val::obj();
@@ -607,6 +640,8 @@ int cmd_check(const std::string &property, const std::string &tier_s) {
 	cov.set("inconclusive_runs", js::Val(total.inconclusive));
 	cov.set("crashed_runs", js::Val((uint64_t)total.crashed_at.size()));
 	cov.set("jobs", jobs_j);
+	cov.set("regression_replays_of_fixed_defects", js::Val((int64_t)regress_total));
+	cov.set("regression_replays_reproduced", js::Val((int64_t)regress_back));
 	js::Val faults = js::Val::obj(), probes = js::Val::obj(), outcomes = js::Val::obj(), replies = js::Val::obj(), other = js::Val::obj();
 	for (auto &c : total.counters) {
 		if (c.first.compare(0, 6, "fault.") == 0) faults.set(c.first.substr(6), js::Val(c.second));
